@@ -9,6 +9,7 @@ var ghostSeqNum func(e Entry) uint64
 //@ func Entry.SeqNum
 //@   property C07
 //@   trusted
+//@   pure
 //@   modifies nothing
 //@   ensures result == ghostSeqNum(self)
 
@@ -16,10 +17,18 @@ var ghostSeqNum func(e Entry) uint64
 var ghostKey func(e Entry) []byte
 
 //@ func Entry.Key
-//@   property C07 C10
+//@   property C07 C10 C03
 //@   trusted
+//@   pure
 //@   modifies nothing
 //@   ensures same(result, ghostKey(self))
+
+// Entry.Value: the value bytes an entry reports (entries are immutable).
+//@ func Entry.Value
+//@   property C03
+//@   trusted
+//@   pure
+//@   modifies nothing
 
 // DataOwnership.ExclusivelyOwnsTable: a table file may be deleted only on a
 // definite "nobody else needs it": an error never comes with true.
